@@ -54,8 +54,8 @@ def run_gated(ctx, binary, rounds, seed, tag=""):
                        "VERIF_C05_ROUNDS": str(rounds), "VERIF_SEED": str(seed)})
     with open(logp, "w") as fh:
         try:
-            p = subprocess.run([binary, "-test.run", "^TestZZVerifC05Gated$", "-test.timeout", "600s"],
-                               cwd=d, env=env, stdout=fh, stderr=subprocess.STDOUT, timeout=660)
+            p = subprocess.run([binary, "-test.run", "^TestZZVerifC05Gated$", "-test.timeout", "%ds" % (120 + 25 * rounds)],
+                               cwd=d, env=env, stdout=fh, stderr=subprocess.STDOUT, timeout=180 + 25 * rounds)
             rc = p.returncode
         except subprocess.TimeoutExpired:
             rc = -9
@@ -393,10 +393,20 @@ def run(ctx):
                                  "request parked in Upstream during admin op %s: %s" % (r["family"], what))
         if not fams_bad:
             ctx.notes.append("gated failure not reproduced: %s" % sorted({r["family"] for r in gbad}))
-    if not grows or (gres["rc"] not in (0, 1) and not gbad):
+    if gres["rc"] not in (0, 1) and "test timed out" in gres["log"]:
+        # The whole driver hung: requests or admin calls never returned.  Treat
+        # it like a stall: reproduce once, key by the lock-blocked frames.
+        gres2 = run_gated(ctx, binary, grounds, ctx.seed + 1, tag="_hang")
+        if gres2["rc"] not in (0, 1) and "test timed out" in gres2["log"]:
+            frames = sorted(set(lock_blocked_frames(gres["log"])) | set(lock_blocked_frames(gres2["log"])))
+            ctx.disagreement("deadlock:" + "|".join(frames), {"family": "Gated", "blocked_in": frames, "dump": gres2["log"][-20000:]},
+                             "gated interleavings: the server stopped answering (driver hung twice); goroutines blocked on locks in %s" % ", ".join(frames))
+        else:
+            ctx.notes.append("gated driver hang not reproduced")
+    if (not grows or gres["rc"] not in (0, 1)) and not gbad and not ctx.violations:
         raise vlib.Inconclusive("gated interleaving driver did not complete:\n" + gres["log"][-2000:])
     parked = sum(r.get("parked", 0) for r in grows)
-    if parked == 0:
+    if parked == 0 and not ctx.violations:
         raise vlib.Inconclusive("gated driver never parked a request in the upstream")
     unrepro = [s["family"] for s in summaries if s.get("unreproduced_stall")]
     # Vacuity: every family must have executed queries and successful admin operations.
